@@ -22,3 +22,9 @@ package iosizer
 //@ func (*SizeReadWriter).TotalSize
 //@   props C20
 //@   ensures result == s.total.v
+//
+//@ object SizeReadWriter
+//@   props C20 C13
+//@   mode sequential
+//@   atomic total
+//@   immutable rdr, wtr
